@@ -483,12 +483,19 @@ def _graph_impl_child(case):
     return out
 
 
+_TIMEOUTS = {"n": 0}      # circuit breaker: after 3 hanging children the remaining graph cases are not run
+
+
 def run_impl(case):
     if case["kind"] == "seg":
         return _seg_impl(case)
     if case["kind"] == "graph":
         from common import sandbox
-        r = sandbox.run_forked(_graph_impl_child, case, timeout=60)
+        if _TIMEOUTS["n"] >= 3:
+            return ["TIMEOUT"] * len(case["ops"])
+        r = sandbox.run_forked(_graph_impl_child, case, timeout=10)
+        if r[0] == "timeout":
+            _TIMEOUTS["n"] += 1
         if r[0] == "ok":
             return r[1]
         return ["CRASH" if r[0] == "crash" else "TIMEOUT" if r[0] == "timeout" else "ERR:" + r[1]] * len(case["ops"])
@@ -751,14 +758,18 @@ def _big_child(case):
 
 def _big_oracle(case):
     from common import sandbox
-    r = sandbox.run_forked(_big_child, case, timeout=600)
     what = f"{case['shape']} of {case['n']} atoms"
+    if _TIMEOUTS["n"] >= 3 or _TIMEOUTS.get("big", 0) >= 1:
+        return []              # the code under test hangs; already reported
+    r = sandbox.run_forked(_big_child, case, timeout=240)
+    if r[0] == "timeout":
+        _TIMEOUTS["big"] = _TIMEOUTS.get("big", 0) + 1
     if r[0] == "crash":
         if _big_depth(case["shape"], case["n"]) >= 40000:
             return [(KEY_CRASH_DEEP, f"get_molecule_indices on a {what}: child died with signal {r[1]}")]
         return [("C17/get_molecule_indices/crash", f"get_molecule_indices on a {what}: child died with signal {r[1]}")]
     if r[0] == "timeout":
-        return [("C17/get_molecule_indices/timeout", f"{what}: no result within 600 s")]
+        return [("C17/get_molecule_indices/timeout", f"{what}: no result within 240 s")]
     if r[0] == "err":
         if r[1] == "RecursionError" and _big_depth(case["shape"], case["n"]) >= 40000:
             return [(KEY_CRASH_DEEP, f"{what}: RecursionError")]
@@ -773,7 +784,11 @@ def oracle(case):
         return _seg_oracle(case)
     if case["kind"] == "graph":
         from common import sandbox
-        r = sandbox.run_forked(_graph_oracle_child, case, timeout=120)
+        if _TIMEOUTS["n"] >= 6:
+            return []          # already reported; do not wait for every remaining case
+        r = sandbox.run_forked(_graph_oracle_child, case, timeout=10)
+        if r[0] == "timeout":
+            _TIMEOUTS["n"] += 1
         if r[0] == "ok":
             return r[1]
         if r[0] == "crash":
